@@ -1,4 +1,5 @@
 import WireP.Lemmas.SolveExample
+import WireP.Lemmas.BindProofs
 /-! # C11 (planner half) — an interface binding is an alias, never a source of its own
 
 Property theorems only; lemmas in `WireP/Lemmas/Solve*.lean`; model `WireV.svStep` / `solve`.
@@ -70,5 +71,116 @@ example : H pmA [3] ∧ (final pmA [] [3] 3).errs = [] ∧ Reach pmA 3 3 ∧
 example : H pmB [0] ∧ look 5 pmB = none ∧ 5 ∉ [0] ∧ Reach pmB 0 5 ∧
     (final pmB smB [0] 0).errs = [] :=
   ⟨hB, by decide, by decide, reachB5, by decide⟩
+
+/-! ## front half — what `wire.Bind` and `wire.InterfaceValue` accept (`WireV.processBind`, `processIValue`)
+
+The method-set rule (`WireV.methodSet`) is the model's restatement of `types.Implements` for defined struct types with
+value and pointer receivers and one level of embedded fields; the `bind` stream ties it and the two functions to the code. -/
+section front
+open WireP.Bind
+
+/-- **Acceptance, characterised**: exactly two arguments, the first a pointer to a defined interface, the second a pointer
+    to the provided type (with `bindToUsePointer`), the provided type is not the interface itself and implements it. -/
+theorem bind_accept_iff (env : BEnv) (usePtr : Bool) (args : List BTy) (i p : BTy) :
+    processBind env usePtr args = .ok (i, p) ↔
+      ∃ k, i = .iface k ∧ args = [.ptr (.iface k), if usePtr then .ptr p else p] ∧ p ≠ .iface k ∧
+        implementsB env p k = true :=
+  processBind_ok_iff env usePtr args i p
+
+/-- an accepted binding: `C` is not `I`, and every method of `I` is in the method set of `C` with the same signature -/
+theorem bind_accepted_implements {env : BEnv} {usePtr : Bool} {args : List BTy} {i p : BTy}
+    (h : processBind env usePtr args = .ok (i, p)) :
+    ∃ k, i = .iface k ∧ p ≠ i ∧ ∀ ns ∈ env.imeths k, ns ∈ methodSet env p := by
+  obtain ⟨k, rfl, _, hne, himp⟩ := (processBind_ok_iff env usePtr args i p).1 h
+  exact ⟨k, rfl, hne, (implementsB_iff env p k).1 himp⟩
+
+/-- **Pointer-receiver methods do not make the value type qualify**: if the binding of `I` to the value type `C` is
+    accepted, `C` declares none of `I`'s method names with a pointer receiver. -/
+theorem bind_value_needs_value_receivers {env : BEnv} {usePtr : Bool} {args : List BTy} {k c : Nat}
+    (hd : OwnDistinct env c) (h : processBind env usePtr args = .ok (.iface k, .named c)) :
+    ∀ ns ∈ env.imeths k, ∀ o ∈ env.meths c, o.name = ns.1 → o.ptrRecv = false := by
+  obtain ⟨k', hk, _, _, himp⟩ := (processBind_ok_iff env usePtr args _ _).1 h
+  injection hk with hk; subst hk
+  intro ns hns o ho hname
+  have hmem := (implementsB_iff env (.named c) k).1 himp ns hns
+  simp only [methodSet, List.mem_map] at hmem
+  obtain ⟨m, hm, rfl⟩ := hmem
+  exact value_methodSet_no_ptr_recv hd hm o ho hname
+
+/-- … stated as a rejection: `wire.Bind(new(I), new(C))` with a method of `I` declared on `*C` is refused -/
+theorem bind_ptr_recv_rejected {env : BEnv} {k c : Nat} {o : BMethod} {s : Nat} (hd : OwnDistinct env c)
+    (ho : o ∈ env.meths c) (hp : o.ptrRecv = true) (hi : (o.name, s) ∈ env.imeths k) :
+    processBind env true [.ptr (.iface k), .ptr (.named c)] = .error .notImpl := by
+  have himp : implementsB env (.named c) k = false := by
+    cases hb : implementsB env (.named c) k with
+    | false => rfl
+    | true =>
+      have hmem := (implementsB_iff env (.named c) k).1 hb _ hi
+      simp only [methodSet, List.mem_map] at hmem
+      obtain ⟨m, hm, hms⟩ := hmem
+      have := value_methodSet_no_ptr_recv hd hm o ho (by injection hms with h1 _; exact h1.symm)
+      rw [hp] at this; cases this
+  simp [processBind, himp]
+
+/-- what the value type offers, its pointer offers too -/
+theorem bind_pointer_accepts_more {env : BEnv} {k c : Nat}
+    (h : processBind env true [.ptr (.iface k), .ptr (.named c)] = .ok (.iface k, .named c)) :
+    processBind env true [.ptr (.iface k), .ptr (.ptr (.named c))] = .ok (.iface k, .ptr (.named c)) := by
+  obtain ⟨k', hk, _, _, himp⟩ := (processBind_ok_iff env true _ _ _).1 h
+  injection hk with hk; subst hk
+  apply (processBind_ok_iff env true _ _ _).2
+  refine ⟨k, rfl, ?_, ?_, ?_⟩
+  · simp
+  · intro h; cases h
+  rw [implementsB_iff] at himp ⊢
+  intro ns hns
+  have := himp ns hns
+  simp only [methodSet, List.mem_map] at this ⊢
+  obtain ⟨m, hm, rfl⟩ := this
+  exact ⟨m, methodSetNamed_mono hm, rfl⟩
+
+/-- **Interface values**: accepted exactly when the expression is not the untyped `nil` and its type implements `I` -/
+theorem ivalue_accept_iff (env : BEnv) (args : List BTy) (i p : BTy) :
+    processIValue env args = .ok (i, p) ↔
+      ∃ k, i = .iface k ∧ args = [.ptr (.iface k), p] ∧ p ≠ .untypedNil ∧ implementsB env p k = true :=
+  processIValue_ok_iff env args i p
+
+/-! ### non-vacuity: `T0` has `M0` (value receiver) and `M1` (pointer receiver); `T1` embeds `T0` and shadows `M0` with a
+pointer-receiver method; `T2` embeds `T0` and `*T3`, which both declare `M0` -/
+def envEx : BEnv where
+  meths := fun c => match c with
+    | 0 => [⟨0, 0, false⟩, ⟨1, 1, true⟩]
+    | 1 => [⟨0, 0, true⟩]
+    | 3 => [⟨0, 0, false⟩, ⟨2, 2, false⟩]
+    | _ => []
+  embeds := fun c => match c with
+    | 1 => [(0, false)]
+    | 2 => [(0, false), (3, true)]
+    | _ => []
+  imeths := fun i => match i with
+    | 0 => [(0, 0)]
+    | 1 => [(0, 0), (1, 1)]
+    | 2 => [(2, 2)]
+    | _ => []
+
+example : OwnDistinct envEx 0 ∧ OwnDistinct envEx 1 := by
+  constructor <;> (unfold OwnDistinct; decide)
+example : processBind envEx true [.ptr (.iface 0), .ptr (.named 0)] = .ok (.iface 0, .named 0) := by rfl
+example : processBind envEx true [.ptr (.iface 1), .ptr (.named 0)] = .error .notImpl := by rfl
+example : processBind envEx true [.ptr (.iface 1), .ptr (.ptr (.named 0))] = .ok (.iface 1, .ptr (.named 0)) := by rfl
+/-- the own pointer-receiver `M0` of `T1` shadows the promoted value-receiver `M0` of `T0` -/
+example : processBind envEx true [.ptr (.iface 0), .ptr (.named 1)] = .error .notImpl := by rfl
+example : processBind envEx true [.ptr (.iface 0), .ptr (.ptr (.named 1))] = .ok (.iface 0, .ptr (.named 1)) := by rfl
+/-- `M0` is ambiguous in `T2`, `M2` is promoted through the embedded pointer -/
+example : processBind envEx true [.ptr (.iface 0), .ptr (.ptr (.named 2))] = .error .notImpl := by rfl
+example : processBind envEx true [.ptr (.iface 2), .ptr (.named 2)] = .ok (.iface 2, .named 2) := by rfl
+example : processBind envEx true [.ptr (.iface 0), .ptr (.iface 0)] = .error .self := by rfl
+example : processBind envEx true [.ptr (.iface 0), .ptr (.iface 1)] = .ok (.iface 0, .iface 1) := by rfl
+example : processBind envEx true [.ptr (.iface 0), .named 0] = .error .notPtr := by rfl
+example : processIValue envEx [.ptr (.iface 0), .named 0] = .ok (.iface 0, .named 0) := by rfl
+example : processIValue envEx [.ptr (.iface 1), .named 0] = .error .notImpl := by rfl
+example : processIValue envEx [.ptr (.iface 0), .untypedNil] = .error .untypedNil := by rfl
+
+end front
 
 end WireP.C11
